@@ -101,38 +101,61 @@ def _compile_and_run(case_dir, backend, events_file, seqs_file, flags=()):
         errs = [ln for ln in p.stdout.splitlines() if "error" in ln]
         comp["msg"] = "\n".join(errs[:3]) if errs else p.stdout[-500:]
         return comp, []
-    try:
-        r = subprocess.run([exe, events_file, seqs_file], stdout=subprocess.PIPE, stderr=subprocess.PIPE,
-                           text=True, errors="replace", timeout=CASE_TIMEOUT)
-    except subprocess.TimeoutExpired:
-        return comp, [{"booked": {"fault": "timeout", "trees": [], "consumes": []}, "events": []}]
-    runs = {}
-    for line in r.stdout.splitlines():
-        line = line.strip()
-        if not line.startswith("{"):
-            continue
-        try:
-            o = json.loads(line)
-        except ValueError:
-            continue
-        run = runs.setdefault(o["run"], {"booked": None, "events": []})
-        if o["r"] == "booked":
-            run["booked"] = {"fault": o["fault"], "trees": o["trees"], "consumes": o.get("extra", {}).get("consumes", [])}
-        else:
-            run["events"].append({"e": o["e"], "requests": o["requests"], "rows": o["rows"], "fault": o["fault"]})
+    all_seqs = [ln.split() for ln in open(seqs_file)]
     out = []
-    nseq = sum(1 for _ in open(seqs_file))
-    for i in range(1, nseq + 1):
-        run = runs.get(i)
-        if run is None or run["booked"] is None:
-            # the process died (signal) before or while this sequence ran
-            out.append({"booked": {"fault": "crash:rc=%s" % r.returncode, "trees": [], "consumes": []}, "events": []})
+    start = 0
+    restarts = 0
+    while start < len(all_seqs):
+        part = os.path.join(case_dir, "vp_seqs_%d.txt" % start)
+        with open(part, "w") as f:
+            for sq in all_seqs[start:]:
+                f.write(" ".join(sq) + "\n")
+        try:
+            r = subprocess.run([exe, events_file, part], stdout=subprocess.PIPE, stderr=subprocess.PIPE,
+                               text=True, errors="replace", timeout=CASE_TIMEOUT)
+            rc = r.returncode
+            stdout = r.stdout
+        except subprocess.TimeoutExpired as ex:
+            rc = -999
+            stdout = ex.stdout.decode(errors="replace") if isinstance(ex.stdout, bytes) else (ex.stdout or "")
+        runs = {}
+        for line in stdout.splitlines():
+            line = line.strip()
+            if not line.startswith("{"):
+                continue
+            try:
+                o = json.loads(line)
+            except ValueError:
+                continue
+            run = runs.setdefault(o["run"], {"booked": None, "events": []})
+            if o["r"] == "booked":
+                run["booked"] = {"fault": o["fault"], "trees": o["trees"], "consumes": o.get("extra", {}).get("consumes", [])}
+            else:
+                run["events"].append({"e": o["e"], "requests": o["requests"], "rows": o["rows"], "fault": o["fault"]})
+        done = 0
+        for i in range(1, len(all_seqs) - start + 1):
+            run = runs.get(i)
+            if run is None or run["booked"] is None:
+                break
+            out.append(run)
+            done += 1
+        if rc == 0 and done == len(all_seqs) - start:
             break
-        out.append(run)
-    if r.returncode != 0 and out and out[-1]["booked"]["fault"] == "none":
-        # died in the middle of a sequence: the last started event is a (loud) fault
-        last = out[-1]
-        last["events"].append({"e": 0, "requests": [], "rows": [], "fault": "crash:rc=%s" % r.returncode})
+        # the process died (signal, abort, timeout): a loud failure of the event it was processing
+        restarts += 1
+        crash = "crash:rc=%s" % rc
+        if done == 0:
+            out.append({"booked": {"fault": crash, "trees": [], "consumes": []}, "events": []})
+            done = 1
+        else:
+            last = out[-1]
+            sq = all_seqs[start + done - 1]
+            if last["booked"]["fault"] == "none" and len(last["events"]) < len(sq) and \
+                    (not last["events"] or last["events"][-1]["fault"] == "none"):
+                last["events"].append({"e": int(sq[len(last["events"])]), "requests": [], "rows": [], "fault": crash})
+        start += done
+        if restarts > 200:
+            break
     return comp, out
 
 
